@@ -181,6 +181,13 @@ Definition penalty (eps : option Q) (g : mat) : Q :=
   end.
 Definition badness (s w a g : mat) (eps : option Q) : Q := chi2_mat s w a g + penalty eps g.
 
+(* the same numbers with per-step reduction (evaluation only: badness_r_correct) *)
+Fixpoint vsum_r (v : vec) : Q := match v with [] => 0 | a :: v' => Qred (a + vsum_r v') end.
+Definition chi2_mat_r (s w a g : mat) : Q :=
+  vsum_r (map2 (fun sw mi => vsum_r (map2 (fun p mij => sqr (fst p - mij) * snd p) (combine (fst sw) (snd sw)) mi))
+               (combine s w) (mat_mul_r a g)).
+Definition badness_r (s w a g : mat) (eps : option Q) : Q := chi2_mat_r s w a g + penalty eps g.
+
 (* normbase() squared: mean_j g_kj^2 *)
 Definition normbase2 (g : mat) : vec :=
   let G := if Nat.eqb g_norm_axis 1 then g else transpose g in
@@ -188,6 +195,85 @@ Definition normbase2 (g : mat) : vec :=
 (* g /= norm ; a *= norm *)
 Definition normalise (n : vec) (a g : mat) : mat * mat :=
   (map (fun ai => map2 Qmult ai n) a, map2 (fun gk nk => map (fun v => v / nk) gk) g n).
+
+
+(* ---- normalisation with the expressions and the broadcasting axes of the source (iterate) *)
+Definition scale_mat (ax : scale_axis) (f : Q -> Q -> Q) (X : mat) (n : vec) : mat :=
+  match ax with
+  | ScaleRows => map2 (fun r nk => map (fun v => f v nk) r) X n
+  | ScaleCols => map (fun r => map2 f r n) X
+  end.
+Definition normalise_gen (n : vec) (a g : mat) : mat * mat :=
+  (scale_mat g_norm_a_axis g_norm_a a n, scale_mat g_norm_g_axis g_norm_g g n).
+
+(* ================================================================== M : one pass of HMF.iterate's loop *)
+(* The loop body is the list of steps the translator reads from the source (g_iter_nn / g_iter_std).  The model runs
+   it as a CHECKED TRACE: every step is applied to the state (a, g) recorded at the call of that step in the real
+   loop, its result must agree with the state recorded at the next step, and the next step starts from that recorded
+   state (so exact arithmetic never accumulates).  reorder() (eigh) is an oracle: its recorded output is accepted
+   when it leaves a.g unchanged and makes a^T a diagonal with ascending diagonal; the square roots of normbase()
+   enter as float witnesses whose squares are verified. *)
+Definition state := (mat * mat)%type.
+Definition a_float_sqrt_ok (s v : Q) : bool := Qlt_bool 0 s && Qle_bool (Qabs (s * s - v)) ((1 # 1000000000000) * v).
+Fixpoint ascending_tol (t : Q) (v : vec) : bool :=
+  match v with a :: ((b :: _) as r) => Qle_bool a (b + t) && ascending_tol t r | _ => true end.
+Definition reorder_ok (tol : Q) (a g ar gr : mat) : bool :=
+  let G := mat_mul_r (transpose ar) ar in
+  let sc := vmaxabs (map vmaxabs G) in
+  mclose (qclose_rel tol) (mat_mul_r ar gr) (mat_mul_r a g)
+  && forallb (fun p => forallb (fun q => if Nat.eqb (fst p) (fst q) then true else Qle_bool (Qabs (snd q)) (tol * sc))
+                               (combine (seq 0 (length (snd p))) (snd p)))
+             (combine (seq 0 (length G)) G)
+  && ascending_tol (tol * sc) (diag G).
+Definition close_state (tol : Q) (m r : state) : bool :=
+  mclose (qclose_rel tol) (fst r) (fst m) && mclose (qclose_rel tol) (snd r) (snd m).
+Definition hmf_apply (s w : mat) (eps : option Q) (nw : vec) (rec : state) (stp : hstep) (st : state) : option state :=
+  let '(a, g) := st in
+  match stp with
+  | SAstep => match astep s w g with Some a' => Some (a', g) | None => None end
+  | SGstep => match gstep s w a g eps with Some g' => Some (a, g') | None => None end
+  | SAstepNN => Some (astepnn s w a g, g)
+  | SGstepNN => Some (a, gstepnn s w a g eps)
+  | SReorder => if reorder_ok (1 # 100000000) a g (fst rec) (snd rec) then Some rec else None
+  | SNormalise => if vclose a_float_sqrt_ok nw (normbase2 g) then Some (normalise_gen nw a g) else None
+  end.
+Fixpoint hmf_trace (s w : mat) (eps : option Q) (nw : vec) (steps : list hstep) (recs : list state) (st : state) : bool :=
+  match steps, recs with
+  | [], [] => true
+  | stp :: steps', r :: recs' =>
+      match hmf_apply s w eps nw r stp st with
+      | Some st' => close_state (1 # 100000000) st' r && hmf_trace s w eps nw steps' recs' r
+      | None => false
+      end
+  | _, _ => false
+  end.
+Definition hmf_iter_steps (nonneg : bool) : list hstep := if nonneg then g_iter_nn else g_iter_std.
+
+(* ================================================================== M : one inner pass of pca_solve *)
+(* synthetic weight of a pixel: mean of its non-zero inverse variances, the default when there is none *)
+Definition pca_synw (ivar : mat) : vec :=
+  map (fun c => match filter g_pca_synw_good c with
+                | [] => g_pca_synw_default
+                | good => Qred (vsum good / inject_Z (Z.of_nat (length good)))
+                end) (transpose ivar).
+Fixpoint filt_row (mi f sw y : vec) : vec :=
+  match mi, f, sw, y with
+  | a :: mi', b :: f', c :: sw', d :: y' => Qred (g_pca_filt a b c d) :: filt_row mi' f' sw' y'
+  | _, _, _, _ => []
+  end.
+(* object i: computechi2(newflux_i, sqrt(maskivar_i), pres[:, 0:nkeep]) -> (acoeff_i, new filtflux_i) *)
+Definition pca_obj_data (nkeep : nat) (pres : mat) (fi vi mi : vec) : list obs :=
+  combine (combine (map (firstn nkeep) pres) (map g_pca_weight (map2 g_pca_maskivar vi mi))) fi.
+Definition pca_obj_step (nkeep : nat) (pres : mat) (synw fi vi mi : vec) : option (vec * vec) :=
+  match wls_solve nkeep (pca_obj_data nkeep pres fi vi mi) with
+  | Some ac => Some (ac, filt_row (map2 g_pca_maskivar vi mi) fi synw (mat_vec_r (map (firstn nkeep) pres) ac))
+  | None => None
+  end.
+Fixpoint zip3 (a b c : mat) : list (vec * vec * vec) :=
+  match a, b, c with x :: a', y :: b', z :: c' => (x, y, z) :: zip3 a' b' c' | _, _, _ => [] end.
+Definition pca_step (nkeep : nat) (newflux ivar mask pres : mat) : option (list (vec * vec)) :=
+  let synw := pca_synw ivar in
+  opt_all (map (fun t => let '(fi, vi, mi) := t in pca_obj_step nkeep pres synw fi vi mi) (zip3 newflux ivar mask)).
 
 (* ================================================================== S : checkers *)
 Definition tol8 : Q := 1 # 100000000.
@@ -219,17 +305,19 @@ Definition inverse_ok (tol : Q) (cov N : mat) : bool :=
 
 (* slack >= 1 scales the rounding tolerances with the conditioning of the system (supplied by the harness as
    max(1, cond(A^T W A) / 1e8), i.e. tolerances ~ cond * 1e-16 .. 1e-17); clause 7, the certified optimality test, does NOT use it *)
-Definition chi2_clauses (slack : Q) (b sq : vec) (A : mat) (ia : vec) (ichi2 : Q) (iyfit : vec) (idof : Z) (icovar : mat) (ivar : vec) : list bool :=
+(* prec >= 1 : working precision of the storage type relative to float64 (1 for float64 / integer inputs, 2^29 for
+   float32 inputs, where the code computes everything in float32); it multiplies the rounding tolerances only *)
+Definition chi2_clauses (slack prec : Q) (b sq : vec) (A : mat) (ia : vec) (ichi2 : Q) (iyfit : vec) (idof : Z) (icovar : mat) (ivar : vec) : list bool :=
   let nstar := ncols A in
   let D := cc_data A sq b in
   let S0 := chi2r D (zeros nstar) in                             (* sum w b^2 : the scale of chi-square *)
   (* every comparison is relative (to the terms of the equation, to the largest entry, to S0): the clauses mean the
      same whatever the absolute scale of sqivar and bvec *)
-  [ grad_small (tol9 * slack) nstar D ia                         (* 0 weighted normal equations *)
-  ; vclose_max (tol9 * slack) iyfit (mat_vec A ia)               (* 1 fitted values *)
-  ; qclose_s tol8 S0 ichi2 (chi2r D ia)                          (* 2 chi-square of the returned coefficients *)
+  [ grad_small (tol9 * slack * prec) nstar D ia                  (* 0 weighted normal equations *)
+  ; vclose_max (tol9 * slack * prec) iyfit (mat_vec A ia)        (* 1 fitted values *)
+  ; qclose_s (tol8 * prec) S0 ichi2 (chi2r D ia)                 (* 2 chi-square of the returned coefficients *)
   ; Z.eqb idof (cc_dof sq nstar)                                 (* 3 degrees of freedom *)
-  ; inverse_ok (tol8 * slack) icovar (normal_mat nstar D)        (* 4 covariance = inverse of A^T W A *)
+  ; inverse_ok (tol8 * slack * prec) icovar (normal_mat nstar D) (* 4 covariance = inverse of A^T W A *)
   ; meq_bool icovar (transpose icovar)                           (* 5 symmetric *)
   ; veq_bool ivar (diag icovar)                                  (* 6 variances = diagonal *)
     (* 7 the chi-square of the returned coefficients is within 1e-6 (relative) of the PROVEN minimum
@@ -243,8 +331,8 @@ Definition chi2_clauses (slack : Q) (b sq : vec) (A : mat) (ia : vec) (ichi2 : Q
         Qle_bool (chi2r D ia) (chi2r D xopt * (1 + tol6) + tol9 * T)
     | None => false
     end ].
-Definition chi2_ok (slack : Q) (b sq : vec) (A : mat) (ia : vec) (ichi2 : Q) (iyfit : vec) (idof : Z) (icovar : mat) (ivar : vec) : bool :=
-  forallb id (chi2_clauses slack b sq A ia ichi2 iyfit idof icovar ivar).
+Definition chi2_ok (slack prec : Q) (b sq : vec) (A : mat) (ia : vec) (ichi2 : Q) (iyfit : vec) (idof : Z) (icovar : mat) (ivar : vec) : bool :=
+  forallb id (chi2_clauses slack prec b sq A ia ichi2 iyfit idof icovar ivar).
 
 Definition astep_ok (tol : Q) (s w g a' : mat) : bool :=
   Nat.eqb (length a') (length s)
@@ -325,9 +413,10 @@ Definition pcomp_ok (tol : Q) (x : mat) (standardize covariance : bool) (sd0 sdc
   forallb id (pcomp_clauses tol x standardize covariance sd0 sdc ievals icoef iderived ivariance).
 
 (* pca_solve: flux = returned eigenspectra (nreturn x npix, float32), acoeff (nobj x nkeep) *)
-Definition pca_clauses (tol : Q) (newflux newivar : mat) (nkeep : nat) (iflux iacoeff : mat) (ieval : vec) (iusemask : list Z) : list bool :=
+Definition pca_clauses (tol : Q) (newflux newivar : mat) (nkeep : nat) (iflux iacoeff : mat) (ieval : vec) (iusemask : list Z)
+           (ioutmask : mat) : list bool :=
   let basis := transpose (firstn nkeep iflux) in         (* npix rows of nkeep values *)
-  [ Nat.eqb (length iacoeff) (length newflux)
+  [ Nat.eqb (length iacoeff) (length newflux) && Nat.leb nkeep (length iflux)
     (* 1 acoeff = inverse-variance-weighted projection on the returned eigenspectra *)
   ; forallb (fun t => let '(fi, wi, ai) := t in grad_small tol nkeep (combine (combine basis wi) fi) ai)
             (combine (combine newflux newivar) iacoeff)
@@ -335,18 +424,30 @@ Definition pca_clauses (tol : Q) (newflux newivar : mat) (nkeep : nat) (iflux ia
   ; Nat.eqb (length iusemask) (ncols newivar)
     (* 4 usemask = number of good spectra per pixel *)
   ; forallb (fun p => Z.eqb (fst p) (Z.of_nat (length (filter (fun v => negb (Qeq_bool v 0)) (snd p)))))
-            (combine iusemask (transpose newivar)) ].
-Definition pca_ok (tol : Q) (newflux newivar : mat) (nkeep : nat) (iflux iacoeff : mat) (ieval : vec) (iusemask : list Z) : bool :=
-  forallb id (pca_clauses tol newflux newivar nkeep iflux iacoeff ieval iusemask).
+            (combine iusemask (transpose newivar))
+    (* 5 the returned per-pixel mask marks exactly the pixels with non-zero inverse variance (nothing is rejected:
+         pca_solve calls djs_reject without limits) *)
+  ; Nat.eqb (length ioutmask) (length newivar)
+    && forallb (fun p => Nat.eqb (length (fst p)) (length (snd p))
+                         && forallb (fun q => Qeq_bool (fst q) (if Qeq_bool (snd q) 0 then 0 else 1)) (combine (fst p) (snd p)))
+               (combine ioutmask newivar) ].
+Definition pca_ok (tol : Q) (newflux newivar : mat) (nkeep : nat) (iflux iacoeff : mat) (ieval : vec) (iusemask : list Z) (ioutmask : mat) : bool :=
+  forallb id (pca_clauses tol newflux newivar nkeep iflux iacoeff ieval iusemask ioutmask).
 
 (* ================================================================== cases *)
 Inductive case :=
-| CChi2 (slack : Q) (b sq : vec) (A : mat) (ia : vec) (ichi2 : Q) (iyfit : vec) (idof : Z) (icovar : mat) (ivar : vec)
-| CPcomp (x : mat) (standardize covariance : bool) (sd0 sdc : vec) (ievals : vec) (icoef iderived : mat) (ivariance : vec)
+| CChi2 (slack prec : Q) (b sq : vec) (A : mat) (ia : vec) (ichi2 : Q) (iyfit : vec) (idof : Z) (icovar : mat) (ivar : vec)
+| CPcomp (prec : Q) (x : mat) (standardize covariance : bool) (sd0 sdc : vec) (ievals : vec) (icoef iderived : mat) (ivariance : vec)
   (* HMF with a, g set by the harness: astep(), gstep(), astepnn(), gstepnn(), normbase(),
      badness() at (a,g), at (astep, g), at (a, gstep) *)
 | CHmf (s w a g : mat) (eps : option Q) (ia ig iann ignn : mat) (inorm : vec) (ibad ibad_a ibad_g : Q)
-| CPca (newflux newivar : mat) (nkeep : nat) (iflux iacoeff : mat) (ieval : vec) (iusemask : list Z).
+| CPca (newflux newivar : mat) (nkeep : nat) (iflux iacoeff : mat) (ieval : vec) (iusemask : list Z) (ioutmask : mat)
+  (* one pass of the real HMF.iterate loop: state at the first step, witnesses of normbase(), states recorded at the
+     following steps and at the end of the pass *)
+| CHmfIter (nonneg : bool) (s w : mat) (eps : option Q) (nw : vec) (st0 : state) (recs : list state)
+  (* one inner pass of pca_solve: pres = derived variables of the pcomp object of this pass (oracle, judged separately),
+     inext = the array handed to pcomp in the next pass (transposed back), iacoeff = the returned coefficients (last pass) *)
+| CPcaStep (nkeep : nat) (newflux ivar mask pres : mat) (inext : option mat) (iacoeff : option mat).
 
 Definition hmf_clauses (s w a g : mat) (eps : option Q) (ia ig iann ignn : mat) (ibad ibad_a ibad_g : Q) : list bool :=
   let slack := tol9 * (1 + Qabs ibad) in
@@ -358,6 +459,23 @@ Definition hmf_clauses (s w a g : mat) (eps : option Q) (ia ig iann ignn : mat) 
     (* 4 non-negative updates keep non-negative factors non-negative *)
   ; (if mat_nonneg s && mat_nonneg w && mat_nonneg a && mat_nonneg g
      then mat_nonneg iann && mat_nonneg ignn else true) ].
+
+
+(* S for one pass of the loop (independent of the generated step list): in the default mode the state recorded after
+   the coefficient update solves every row's normal equations for the old g, the state after the component update
+   solves every column's (penalised) normal equations for the NEW a; in both modes the pass ends with components of
+   unit mean square; in non-negative mode non-negative data and factors give non-negative factors at every step *)
+Definition unit_ms (tol : Q) (g : mat) : bool :=
+  forallb (fun gk => qclose tol (vsum (map sqr gk) / inject_Z (Z.of_nat (length gk))) 1) g.
+Definition iter_clauses (nonneg : bool) (s w : mat) (eps : option Q) (st0 : state) (recs : list state) : list bool :=
+  [ (if nonneg then true else
+       match recs with
+       | r1 :: r2 :: _ => astep_ok tol9 s w (snd st0) (fst r1) && gstep_ok tol9 s w (fst r1) (snd st0) eps (snd r2)
+       | _ => false
+       end)
+  ; unit_ms tol9 (snd (last recs st0))
+  ; (if nonneg && mat_nonneg s && mat_nonneg w && mat_nonneg (fst st0) && mat_nonneg (snd st0)
+     then forallb (fun r => mat_nonneg (fst r) && mat_nonneg (snd r)) recs else true) ].
 
 (* what the source says about pcomp's public arrays (sort idiom, scaling axis and factor, variance formula) *)
 Fixpoint ascending (v : vec) : bool :=
@@ -373,42 +491,55 @@ Definition b2z (bit : Z) (ok : bool) : Z := if ok then 0%Z else bit.
 
 Definition run_case (c : case) : Z :=
   match c with
-  | CChi2 slack b sq A ia ichi2 iyfit idof icovar ivar =>
+  | CChi2 slack prec b sq A ia ichi2 iyfit idof icovar ivar =>
+      let t := tol8 * slack * prec in
       let agree := match computechi2 b sq A with
                    | None => false
-                   | Some r => vclose_max (tol8 * slack) ia (c_acoeff r)
-                               && qclose_s (tol8 * slack) (chi2r (cc_data A sq b) (zeros (ncols A))) ichi2 (c_chi2 r)
-                               && vclose_max (tol8 * slack) iyfit (c_yfit r) && Z.eqb idof (c_dof r)
-                               && mclose_max (tol8 * slack) icovar (c_covar r) && vclose_max (tol8 * slack) ivar (c_var r)
+                   | Some r => vclose_max t ia (c_acoeff r)
+                               && qclose_s t (chi2r (cc_data A sq b) (zeros (ncols A))) ichi2 (c_chi2 r)
+                               && vclose_max t iyfit (c_yfit r) && Z.eqb idof (c_dof r)
+                               && mclose_max t icovar (c_covar r) && vclose_max t ivar (c_var r)
                    end in
-      (b2z 1 agree + b2z 2 (chi2_ok slack b sq A ia ichi2 iyfit idof icovar ivar))%Z
-  | CPcomp x st cv sd0 sdc ievals icoef ider ivariance =>
-      (b2z 1 (pcomp_model_agree tol8 (pcomp_C (pcomp_array x st sd0) cv sdc) ievals icoef ivariance)
-       + b2z 2 (pcomp_ok tol8 x st cv sd0 sdc ievals icoef ider ivariance))%Z
+      (b2z 1 agree + b2z 2 (chi2_ok slack prec b sq A ia ichi2 iyfit idof icovar ivar))%Z
+  | CPcomp prec x st cv sd0 sdc ievals icoef ider ivariance =>
+      (b2z 1 (pcomp_model_agree (tol8 * prec) (pcomp_C (pcomp_array x st sd0) cv sdc) ievals icoef ivariance)
+       + b2z 2 (pcomp_ok (tol8 * prec) x st cv sd0 sdc ievals icoef ider ivariance))%Z
   | CHmf s w a g eps ia ig iann ignn inorm ibad ibad_a ibad_g =>
       let agree :=
         match astep s w g, gstep s w a g eps with
         | Some ma, Some mg =>
             mclose (qclose_rel tol8) ia ma && mclose (qclose_rel tol8) ig mg
-            && qclose_rel tol8 ibad_a (badness s w ma g eps) && qclose_rel tol8 ibad_g (badness s w a mg eps)
+            && qclose_rel tol8 ibad_a (badness_r s w ma g eps) && qclose_rel tol8 ibad_g (badness_r s w a mg eps)
         | _, _ => false
         end
         && mclose (qclose_rel tol8) iann (astepnn s w a g) && mclose (qclose_rel tol8) ignn (gstepnn s w a g eps)
         && vclose (qclose_rel tol8) (map sqr inorm) (normbase2 g)
-        && qclose_rel tol8 ibad (badness s w a g eps) in
+        && qclose_rel tol8 ibad (badness_r s w a g eps) in
       let spec := forallb id (hmf_clauses s w a g eps ia ig iann ignn ibad ibad_a ibad_g) in
       (b2z 1 agree + b2z 2 spec)%Z
-  | CPca newflux newivar nkeep iflux iacoeff ieval iusemask =>
-      b2z 2 (pca_ok tol5 newflux newivar nkeep iflux iacoeff ieval iusemask)
+  | CPca newflux newivar nkeep iflux iacoeff ieval iusemask ioutmask =>
+      b2z 2 (pca_ok tol5 newflux newivar nkeep iflux iacoeff ieval iusemask ioutmask)
+  | CHmfIter nonneg s w eps nw st0 recs =>
+      (b2z 1 (hmf_trace s w eps nw (hmf_iter_steps nonneg) recs st0)
+       + b2z 2 (forallb id (iter_clauses nonneg s w eps st0 recs)))%Z
+  | CPcaStep nkeep newflux ivar mask pres inext iacoeff =>
+      b2z 1 (match pca_step nkeep newflux ivar mask pres with
+             | Some res =>
+                 (match inext with Some nx => mclose (qclose_rel tol8) nx (map snd res) | None => true end)
+                 && (match iacoeff with Some ac => mclose (qclose_s tol8 (vmaxabs (map vmaxabs (map fst res)))) ac (map fst res) | None => true end)
+             | None => false
+             end)
   end.
 
 (* clause-by-clause verdict of the specification checker (used to label a violation) *)
 Definition diag_case (c : case) : list bool :=
   match c with
-  | CChi2 slack b sq A ia ichi2 iyfit idof icovar ivar => chi2_clauses slack b sq A ia ichi2 iyfit idof icovar ivar
-  | CPcomp x st cv sd0 sdc ievals icoef ider ivariance => pcomp_clauses tol8 x st cv sd0 sdc ievals icoef ider ivariance
+  | CChi2 slack prec b sq A ia ichi2 iyfit idof icovar ivar => chi2_clauses slack prec b sq A ia ichi2 iyfit idof icovar ivar
+  | CPcomp prec x st cv sd0 sdc ievals icoef ider ivariance => pcomp_clauses (tol8 * prec) x st cv sd0 sdc ievals icoef ider ivariance
   | CHmf s w a g eps ia ig iann ignn inorm ibad ibad_a ibad_g => hmf_clauses s w a g eps ia ig iann ignn ibad ibad_a ibad_g
-  | CPca newflux newivar nkeep iflux iacoeff ieval iusemask => pca_clauses tol5 newflux newivar nkeep iflux iacoeff ieval iusemask
+  | CPca newflux newivar nkeep iflux iacoeff ieval iusemask ioutmask => pca_clauses tol5 newflux newivar nkeep iflux iacoeff ieval iusemask ioutmask
+  | CHmfIter nonneg s w eps nw st0 recs => iter_clauses nonneg s w eps st0 recs
+  | CPcaStep _ _ _ _ _ _ _ => []
   end.
 
 Definition run_cases (cs : list case) : list Z := map run_case cs.
